@@ -1120,6 +1120,11 @@ func payloadOK(got, want, mode string) bool {
 			return true
 		}
 		if strings.HasPrefix(p, "{") {
+			body := strings.TrimSuffix(strings.TrimPrefix(p, "{"), "}")
+			if i := strings.Index(body, "={"); i > 0 && strings.HasSuffix(body, "}") && !strings.ContainsAny(body[:i], ",({") {
+				// a chunk of a keyed sub-graph: {k={y=..}} is a part of {..,k={x=..,y=..}}: the key, and below it the entry
+				return strings.Contains(want, body[:i+2]) && strings.Contains(want, strings.TrimSuffix(body[i+2:], "}"))
+			}
 			return strings.Contains(want, strings.Trim(p, "{}"))
 		}
 		if strings.HasPrefix(p, "[") {
